@@ -130,16 +130,18 @@ class rrulebase(object):
         while gen:
             if i == len(cache):
                 acquire()
-                if self._cache_complete:
-                    break
                 try:
-                    for j in range(10):
-                        cache.append(advance_iterator(gen))
-                except StopIteration:
-                    self._cache_gen = gen = None
-                    self._cache_complete = True
-                    break
-                release()
+                    if self._cache_complete:
+                        break
+                    try:
+                        for j in range(10):
+                            cache.append(advance_iterator(gen))
+                    except StopIteration:
+                        self._cache_gen = gen = None
+                        self._cache_complete = True
+                        break
+                finally:
+                    release()
             yield cache[i]
             i += 1
         while i < self._len:
